@@ -15,7 +15,8 @@ from .common import unparse
 EXPLANATION = (
     'Game.write_cart_data is analysed as piecewise-affine index arithmetic in '
     'two symbols, s = start_addr and e = s + len(data); cart data plays no '
-    'role. R-C18-map: the memmap tuple evaluates to contiguous '
+    'role (the whole function body, including early returns and any number '
+    'of loops over the memory map, is interpreted on the integers). R-C18-map: the memmap tuple evaluates to contiguous '
     '(start, end, region) rows from 0 to 0x4300 that equal the reference '
     'memory map, each row\'s array is the region of that name, and each '
     'region\'s size (from its empty() constructor) equals end - start. '
@@ -114,215 +115,310 @@ def rule_map(ctx, res, rows, node, f):
                       n, sizes.get(n), b - a), f.module.loc(node))
 
 
-def rule_reject(ctx, res, f, loop, rows):
-    cfg = cfg_of(f)
-    total = rows[-1][1]
-    addr, data = f.params()[2] if len(f.params()) > 2 else 'start_addr', \
-        f.params()[1]
-    addr = f.params()[2] if len(f.params()) > 2 else 'start_addr'
-    data = f.params()[1] if len(f.params()) > 1 else 'data'
-    guard = None
-    for n in cfg.nodes:
-        if n.kind == 'test' and isinstance(n.stmt, ast.If) and \
-                not any(n.ast is x for x in walk_own(loop)):
-            tr = cfg.succ_by_label(n, 'true')
-            reach = cfg.reachable_from(tr, avoid={n})
-            if cfg.raise_exit in reach and cfg.exit not in reach:
-                guard = n
-    loop_nodes = cfg.nodes_of(loop)
-    ok = guard is not None and all(cfg.dominates(guard, ln)
-                                   for ln in loop_nodes)
-    res.check(ok, 'R-C18-reject', Q, 'raising size test dominates all stores',
-              '', 'no raising test precedes the region loop: an oversized '
-              'write is partially applied', f.loc)
-    if guard is None:
-        return addr, data
-    bad = None
-    for s in (0, 1, total - 1, total, 0x2000):
-        for e in (total - 1, total, total + 1, total + 2):
-            if e < s:
+class _Stop(Exception):
+    def __init__(self, kind):
+        self.kind = kind
+
+
+def _uses_of_data_ok(f, data):
+    """the data parameter occurs only as len(data), as a truth test, sliced,
+    or as the whole right-hand side of a slice store"""
+    for n in walk_own(f.node):
+        if isinstance(n, ast.Name) and n.id == data and \
+                isinstance(n.ctx, ast.Load):
+            p = getattr(n, '_parent', None)
+            if isinstance(p, ast.Call) and isinstance(p.func, ast.Name) and \
+                    p.func.id == 'len':
                 continue
-            env = {addr: s, 'len({})'.format(data): e - s}
-            try:
-                v = arith.ev(guard.ast, env)
-            except AnalysisError as ex:
-                res.undecided('R-C18-reject', Q, 'threshold', str(ex))
-                return addr, data
-            if bool(v) != (e > total):
-                bad = (s, e - s, bool(v))
-    res.check(bad is None, 'R-C18-reject', Q,
-              'rejects exactly writes that pass 0x{:x}'.format(total),
-              unparse(guard.ast, 60),
-              'start {} length {}: test gives {} (a write ending at 0x{:x} '
-              'must be {}ed)'.format(
-                  *(bad + (bad[0] + bad[1],
-                           'reject' if bad[0] + bad[1] > total else 'accept'))
-                  if bad else (0, 0, 0, 0, '')),
-              f.module.loc(guard.ast))
-    return addr, data
-
-
-def _check_guards_affine(loop, addr, data, rowvars):
-    """Every comparison in the loop body relates s or s+len(data) (possibly
-    minus a row constant) to a row constant / zero -- the piecewise-affine
-    structure the cell argument needs."""
-    ok_names = {addr, data} | set(rowvars)
-    for n in walk_own(loop):
-        if isinstance(n, ast.Compare):
-            names = {x.id for x in walk_own(n) if isinstance(x, ast.Name)}
-            locs = names - ok_names - {'len', 'max', 'min'}
-            # locals defined in the body from the same symbols are fine
-            for x in locs:
-                pass
-        if isinstance(n, (ast.Mult, ast.FloorDiv, ast.Mod, ast.Pow)):
+            if isinstance(p, ast.Subscript) and p.value is n and \
+                    isinstance(p.slice, ast.Slice):
+                continue
+            if isinstance(p, ast.UnaryOp) and isinstance(p.op, ast.Not):
+                continue
+            if isinstance(p, (ast.If, ast.While, ast.IfExp)) and p.test is n:
+                continue
+            if isinstance(p, ast.Assign) and p.value is n and \
+                    isinstance(p.targets[0], ast.Subscript):
+                continue
+            if isinstance(p, ast.Call) and isinstance(p.func, ast.Attribute) \
+                    and p.func.attr == 'format':
+                continue                     # error message
             return False
     return True
 
 
-def rule_slices(ctx, res, f, loop, rows, addr, data):
-    total = rows[-1][1]
-    tgt = loop.target
-    if not (isinstance(tgt, ast.Tuple) and len(tgt.elts) == 3 and
-            all(isinstance(e, ast.Name) for e in tgt.elts)):
-        res.undecided('R-C18-slices', Q, 'loop target', 'not a 3-tuple')
-        return
-    va, vb, varr = [e.id for e in tgt.elts]
-    if not _check_guards_affine(loop, addr, data, (va, vb)):
-        res.undecided('R-C18-slices', Q, 'affine structure',
-                      'loop body uses * // % : not piecewise affine')
-        return
+def simulate(f, rows, memname, addr, data, s, L):
+    """Interpret write_cart_data on the integers (start_addr = s, len(data) =
+    L; cart bytes play no role).  -> (outcome, [(region, dlo, dhi, slo, shi)])
+    with outcome 'ok' or 'raise'; slice bounds are raw (None = omitted)."""
     lenkey = 'len({})'.format(data)
+    env = {addr: s, lenkey: L, data: L}
+    stores = []
+    region_of = {}
 
-    def run_body(env):
-        """-> None (skipped) or (dlo, dhi, slo, shi) raw slice bounds"""
-        env = dict(env)
-        result = [None]
+    def store(t, v):
+        # <region array>[a:b] = data[c:d] | data
+        arr = t.value
+        if isinstance(arr, ast.Name) and arr.id in region_of:
+            reg = region_of[arr.id]
+        elif isinstance(arr, ast.Attribute) and arr.attr == '_data' and \
+                isinstance(arr.value, ast.Attribute):
+            reg = arr.value.attr
+        else:
+            raise AnalysisError('store into ' + unparse(arr, 40))
+        if not isinstance(t.slice, ast.Slice) or t.slice.step is not None:
+            raise AnalysisError('store is not a plain slice store')
+        dlo = arith.ev(t.slice.lower, env) if t.slice.lower is not None \
+            else None
+        dhi = arith.ev(t.slice.upper, env) if t.slice.upper is not None \
+            else None
+        if isinstance(v, ast.Name) and v.id == data:
+            slo = shi = None
+        elif isinstance(v, ast.Subscript) and isinstance(v.value, ast.Name) \
+                and v.value.id == data and isinstance(v.slice, ast.Slice) \
+                and v.slice.step is None:
+            slo = arith.ev(v.slice.lower, env) if v.slice.lower is not None \
+                else None
+            shi = arith.ev(v.slice.upper, env) if v.slice.upper is not None \
+                else None
+        else:
+            raise AnalysisError('stored value is not (a slice of) the data: '
+                                + unparse(v, 40))
+        stores.append((reg, dlo, dhi, slo, shi))
 
-        def block(stmts):
-            for st in stmts:
-                if isinstance(st, ast.Expr) and isinstance(st.value,
-                                                           ast.Constant):
+    def block(stmts):
+        for st in stmts:
+            if isinstance(st, ast.Expr) and isinstance(st.value, ast.Constant):
+                continue
+            if isinstance(st, ast.Pass):
+                continue
+            if isinstance(st, ast.If):
+                block(st.body if arith.ev(st.test, env) else st.orelse)
+                continue
+            if isinstance(st, ast.Raise):
+                raise _Stop('raise')
+            if isinstance(st, ast.Return):
+                raise _Stop('return')
+            if isinstance(st, ast.Continue):
+                raise _Stop('continue')
+            if isinstance(st, ast.Break):
+                raise _Stop('break')
+            if isinstance(st, ast.Assert):
+                if not arith.ev(st.test, env):
+                    raise _Stop('raise')
+                continue
+            if isinstance(st, ast.Assign) and len(st.targets) == 1:
+                t = st.targets[0]
+                if isinstance(t, ast.Name) and t.id == memname:
                     continue
-                if isinstance(st, ast.If):
-                    if arith.ev(st.test, env):
-                        block(st.body)
-                    else:
-                        block(st.orelse)
+                if isinstance(t, ast.Name):
+                    env[t.id] = arith.ev(st.value, env)
                     continue
-                if isinstance(st, ast.Continue):
-                    raise arith.Skip()
-                if isinstance(st, ast.Assign) and len(st.targets) == 1:
-                    t = st.targets[0]
-                    if isinstance(t, ast.Name):
-                        env[t.id] = arith.ev(st.value, env)
-                        continue
-                    if isinstance(t, ast.Subscript) and \
-                            isinstance(t.value, ast.Name) and \
-                            t.value.id == varr and \
-                            isinstance(t.slice, ast.Slice) and \
-                            isinstance(st.value, ast.Subscript) and \
-                            isinstance(st.value.value, ast.Name) and \
-                            st.value.value.id == data and \
-                            isinstance(st.value.slice, ast.Slice):
-                        d, sl = t.slice, st.value.slice
-                        if d.step is not None or sl.step is not None:
-                            raise AnalysisError('slice step')
-                        result[0] = tuple(
-                            arith.ev(x, env) if x is not None else None
-                            for x in (d.lower, d.upper, sl.lower, sl.upper))
-                        continue
-                raise AnalysisError('statement outside the model: ' +
-                                    unparse(st, 60))
-        try:
-            block(loop.body)
-        except arith.Skip:
-            return None
-        return result[0]
-
-    n_pts = 0
-    # integer constants in the body shift the breakpoints of the arrangement
-    offs = {0}
-    for n in walk_own(loop):
-        if isinstance(n, ast.Constant) and isinstance(n.value, int) and \
-                not isinstance(n.value, bool) and 0 < abs(n.value) <= 4096:
-            offs |= {n.value, -n.value}
-    res.stats['breakpoint_offsets'] = sorted(offs)
-    for (a, b, name) in rows:
-        size = b - a
-        bps = sorted({min(max(k + o, 0), total) for k in (a, b) for o in offs}
-                     | {0, total})
-        axis = []
-        prev = -1
-        for k in bps:
-            if k - 1 > prev:
-                lo, hi = prev + 1, k - 1
-                axis.append(sorted({lo, min(lo + 1, hi), hi}))
-            axis.append([k])
-            prev = k
-        bad = None
-        cells = 0
-        for sp in axis:
-            for ep in axis:
-                cell_pts = [(s, e) for s in sp for e in ep if s <= e]
-                if not cell_pts:
+                if isinstance(t, ast.Subscript):
+                    store(t, st.value)
                     continue
-                cells += 1
-                for (s, e) in cell_pts:
-                    n_pts += 1
-                    L = e - s
-                    env = {addr: s, lenkey: L, va: a, vb: b}
+            if isinstance(st, ast.For) and isinstance(st.iter, ast.Name) and \
+                    st.iter.id == memname and \
+                    isinstance(st.target, ast.Tuple) and \
+                    len(st.target.elts) == 3 and \
+                    all(isinstance(e, ast.Name) for e in st.target.elts) and \
+                    not st.orelse:
+                va, vb, varr = [e.id for e in st.target.elts]
+                for (a, b, name) in rows:
+                    env[va], env[vb] = a, b
+                    region_of[varr] = name
                     try:
-                        r = run_body(env)
-                    except AnalysisError as ex:
-                        res.undecided('R-C18-slices', Q, 'region ' + name,
-                                      str(ex), f.module.loc(loop))
-                        return
+                        block(st.body)
+                    except _Stop as ex:
+                        if ex.kind == 'continue':
+                            continue
+                        if ex.kind == 'break':
+                            break
+                        raise
+                continue
+            raise AnalysisError('statement outside the model: ' +
+                                unparse(st, 60))
+    try:
+        block(f.node.body)
+    except _Stop as ex:
+        if ex.kind == 'raise':
+            return 'raise', stores
+        if ex.kind in ('continue', 'break'):
+            raise AnalysisError('continue/break outside a loop')
+    return 'ok', stores
+
+
+def _axis(points, total):
+    """representative values: every breakpoint, and the ends and an interior
+    point of every open interval between consecutive breakpoints"""
+    bps = sorted({min(max(k, 0), total + 3) for k in points})
+    out = []
+    prev = -1
+    for k in bps:
+        if k - 1 > prev:
+            lo, hi = prev + 1, k - 1
+            out.append(sorted({lo, min(lo + 1, hi), hi}))
+        out.append([k])
+        prev = k
+    return out
+
+
+def rule_effect(ctx, res, f, rows, memname):
+    total = rows[-1][1]
+    params = f.params()
+    data = params[1] if len(params) > 1 else 'data'
+    addr = params[2] if len(params) > 2 else 'start_addr'
+    if not _uses_of_data_ok(f, data):
+        res.undecided('R-C18-slices', Q, 'use of the data',
+                      'the data parameter is used other than by length, '
+                      'truth value and slicing', f.loc)
+        return
+    for n in walk_own(f.node):
+        if isinstance(n, ast.BinOp) and isinstance(
+                n.op, (ast.Mult, ast.FloorDiv, ast.Mod, ast.Pow, ast.LShift,
+                       ast.RShift, ast.BitAnd, ast.BitOr)):
+            res.undecided('R-C18-slices', Q, 'affine structure',
+                          'address arithmetic uses * // % or bit operators: '
+                          'not piecewise affine', f.module.loc(n))
+            return
+    # integer constants of the function shift the breakpoints
+    offs = {0}
+    for n in walk_own(f.node):
+        if isinstance(n, ast.Constant) and isinstance(n.value, int) and \
+                not isinstance(n.value, bool) and 0 < abs(n.value) <= 64:
+            offs |= {n.value, -n.value}
+    marks = {0, total, total + 1, total + 2} | \
+        {k + o for (a, b, _n) in rows for k in (a, b) for o in offs}
+    res.stats['breakpoint_offsets'] = sorted(offs)
+    axis = _axis(marks, total)
+    n_pts = cells = 0
+    bad_reject = None
+    bad = {}
+    sizes = {name: b - a for (a, b, name) in rows}
+    bounds = {name: (a, b) for (a, b, name) in rows}
+    for sp in axis:
+        for ep in axis:
+            pts = [(s, e) for s in sp for e in ep if s <= e]
+            if not pts:
+                continue
+            cells += 1
+            for (s, e) in pts:
+                n_pts += 1
+                L = e - s
+                try:
+                    outcome, stores = simulate(f, rows, memname, addr, data,
+                                               s, L)
+                except AnalysisError as ex:
+                    res.undecided('R-C18-slices', Q, 'analysis', str(ex),
+                                  f.loc)
+                    return
+                if (outcome == 'raise') != (e > total) or (
+                        outcome == 'raise' and stores):
+                    if bad_reject is None or (s, L) < bad_reject[:2]:
+                        bad_reject = (s, L, outcome, len(stores))
+                    continue
+                if outcome == 'raise':
+                    continue
+                # net effect per region
+                per = {}
+                for (reg, dlo, dhi, slo, shi) in stores:
+                    per.setdefault(reg, []).append((dlo, dhi, slo, shi))
+                for (a, b, name) in rows:
                     lo_i, hi_i = max(s, a), min(e, b)
-                    if r is None:
-                        if lo_i < hi_i and bad is None:
-                            bad = (s, L, 'the write is skipped although '
-                                   'bytes 0x{:x}..0x{:x} fall into the '
+                    got = per.get(name, [])
+                    msg = None
+                    eff = []
+                    for (dlo, dhi, slo, shi) in got:
+                        d0, d1 = arith.norm_slice(dlo, dhi, sizes[name])
+                        s0, s1 = arith.norm_slice(slo, shi, L)
+                        raw = 'region[{}:{}] = data[{}:{}]'.format(
+                            '' if dlo is None else dlo,
+                            '' if dhi is None else dhi,
+                            '' if slo is None else slo,
+                            '' if shi is None else shi)
+                        if d1 - d0 != s1 - s0:
+                            msg = ('{} replaces {} bytes by {}: the region '
+                                   'changes size'.format(raw, d1 - d0,
+                                                         s1 - s0))
+                            break
+                        if d1 > d0:
+                            eff.append((d0, d1, s0, s1, raw))
+                    if msg is None:
+                        if lo_i >= hi_i:
+                            if eff:
+                                msg = ('nothing of the write lies in the '
+                                       'region, yet {} is executed'.format(
+                                           eff[0][4]))
+                        elif not eff:
+                            msg = ('nothing is stored although bytes '
+                                   '0x{:x}..0x{:x} fall into the '
                                    'region'.format(lo_i, hi_i - 1))
-                        continue
-                    d0, d1 = arith.norm_slice(r[0], r[1], size)
-                    s0, s1 = arith.norm_slice(r[2], r[3], L)
-                    dl, slen = d1 - d0, s1 - s0
-                    if lo_i >= hi_i:
-                        want_d = want_s = None
-                        if dl != 0 or slen != 0:
-                            if bad is None:
-                                bad = (s, L, 'nothing of the write lies in '
-                                       'the region, yet region[{}:{}] = '
-                                       'data[{}:{}] is executed ({} bytes '
-                                       'replaced by {})'.format(
-                                           r[0], r[1], r[2], r[3], dl, slen))
-                        continue
-                    want_d = (lo_i - a, hi_i - a)
-                    want_s = (lo_i - s, hi_i - s)
-                    if (d0, d1) != want_d or (s0, s1) != want_s:
-                        if bad is None:
-                            bad = (s, L, 'region[{}:{}] = data[{}:{}] '
-                                   'addresses region bytes [{}:{}) / data '
-                                   'bytes [{}:{}); expected region [{}:{}) '
-                                   '/ data [{}:{}){}'.format(
-                                       r[0], r[1], r[2], r[3], d0, d1, s0, s1,
-                                       want_d[0], want_d[1], want_s[0],
-                                       want_s[1],
-                                       ' -- the region changes size' if
-                                       dl != slen else ''))
+                        elif len(eff) > 1:
+                            msg = 'several stores into one region'
+                        else:
+                            (d0, d1, s0, s1, raw) = eff[0]
+                            want_d = (lo_i - a, hi_i - a)
+                            want_s = (lo_i - s, hi_i - s)
+                            if (d0, d1) != want_d or (s0, s1) != want_s:
+                                msg = ('{} addresses region bytes [{}:{}) / '
+                                       'data bytes [{}:{}); expected region '
+                                       '[{}:{}) / data [{}:{})'.format(
+                                           raw, d0, d1, s0, s1, want_d[0],
+                                           want_d[1], want_s[0], want_s[1]))
+                    if msg is not None:
+                        old = bad.get(name)
+                        if old is None or (L, s) < (old[1], old[0]):
+                            bad[name] = (s, L, msg)
+                extra = set(per) - set(sizes)
+                if extra:
+                    bad.setdefault(sorted(extra)[0], (s, L, 'store into an '
+                                                      'array outside the map'))
+    res.stats['slice_points_evaluated'] = n_pts
+    res.stats['arrangement_cells'] = cells
+    res.check(bad_reject is None, 'R-C18-reject', Q,
+              'rejects exactly the writes that pass 0x{:x}, before any '
+              'store'.format(total),
+              '{} cells of the (start, end) arrangement'.format(cells),
+              'write_cart_data(data of {} bytes, start_addr=0x{:x}) {} '
+              '(write ends at 0x{:x}; {} stores made)'.format(
+                  bad_reject[1], bad_reject[0],
+                  'raises' if bad_reject[2] == 'raise' else 'is accepted',
+                  bad_reject[0] + bad_reject[1], bad_reject[3])
+              if bad_reject else '', f.loc)
+    for (a, b, name) in rows:
         inst = 'region {} [0x{:x},0x{:x})'.format(name, a, b)
-        if bad is None:
+        if name not in bad:
             res.holds('R-C18-slices', Q, inst,
                       '{} cells of the (start, end) arrangement, all '
                       'representative points agree with the '
-                      'specification'.format(cells), f.module.loc(loop))
+                      'specification'.format(cells), f.loc)
         else:
+            (s, L, msg) = bad[name]
             res.violation('R-C18-slices', Q, inst,
                           'write_cart_data(data of {} bytes, start_addr='
-                          '0x{:x}): {}'.format(bad[1], bad[0], bad[2]),
-                          f.module.loc(loop))
-    res.stats['slice_points_evaluated'] = n_pts
+                          '0x{:x}): {}'.format(L, s, msg), f.loc)
     res.require_min('R-C18-slices', 5)
+
+
+def rule_reject_dominates(ctx, res, f, rows):
+    """structural part: a raising test precedes every store on every path"""
+    cfg = cfg_of(f)
+    stores = [n for n in walk_own(f.node) if isinstance(n, ast.Assign) and
+              isinstance(n.targets[0], ast.Subscript)]
+    guards = []
+    for n in cfg.nodes:
+        if n.kind == 'test' and isinstance(n.stmt, ast.If):
+            tr = cfg.succ_by_label(n, 'true')
+            reach = cfg.reachable_from(tr, avoid={n})
+            if cfg.raise_exit in reach and cfg.exit not in reach:
+                guards.append(n)
+    ok = bool(guards) and bool(stores) and all(
+        any(cfg.dominates(g, sn) for g in guards)
+        for st in stores for sn in cfg.nodes_of(st))
+    res.check(ok, 'R-C18-reject', Q, 'raising size test dominates all stores',
+              '{} store site(s)'.format(len(stores)),
+              'no raising test precedes the region stores: an oversized '
+              'write is partially applied', f.loc)
 
 
 def run(ctx, res):
@@ -334,5 +430,6 @@ def run(ctx, res):
         res.undecided('R-C18-map', Q, 'memmap', str(e), f.loc)
         return
     rule_map(ctx, res, rows, node, f)
-    addr, data = rule_reject(ctx, res, f, loop, rows)
-    rule_slices(ctx, res, f, loop, rows, addr, data)
+    memname = node.targets[0].id
+    rule_reject_dominates(ctx, res, f, rows)
+    rule_effect(ctx, res, f, rows, memname)
